@@ -1428,9 +1428,18 @@ impl<'a, 'b, W: Write> Serializer for &'a mut YamlSerializer<'b, W> {
             // instead of:
             // -
             //   - 1
-            let inline_first = (!self.at_line_start)
+            let after_dash = (!self.at_line_start)
                 && self.after_dash_depth.is_some()
                 && !self.pending_space_after_colon;
+            // The compact form puts the inner dash two columns after the outer one, which is
+            // where the following inner items are indented only when the indentation step is 2.
+            // For any other step the inner sequence starts on its own line.
+            let inline_first = after_dash && self.indent_step == 2;
+            let base_after_dash = self.after_dash_depth;
+            if after_dash && !inline_first && self.pending_anchor_id.is_none() {
+                self.newline()?;
+                self.pending_inline_map = false;
+            }
             // If we are a mapping value (space after colon was pending), we will handle
             // the newline later in SeqSer::serialize_element to keep empty sequences inline.
             self.write_anchor_for_complex_node()?;
@@ -1448,8 +1457,8 @@ impl<'a, 'b, W: Write> Serializer for &'a mut YamlSerializer<'b, W> {
             // - After a list dash inline_first: base is dash depth; indent one level deeper.
             // - As a value after a map key: base is current_map_depth (if set), indent one level deeper.
             // - Otherwise (top-level or already at line start): base is current depth.
-            let base = if inline_first {
-                self.after_dash_depth.unwrap_or(self.depth)
+            let base = if inline_first || after_dash {
+                base_after_dash.unwrap_or(self.depth)
             } else if was_inline_value && self.current_map_depth.is_some() {
                 self.current_map_depth.unwrap_or(self.depth)
             } else {
@@ -1458,7 +1467,7 @@ impl<'a, 'b, W: Write> Serializer for &'a mut YamlSerializer<'b, W> {
             // For sequences used as a mapping value, indent them one level deeper so the dash is
             // nested under the parent key (consistent with serde_yaml's formatting). Keep block
             // sequences inline only when they immediately follow another dash.
-            let depth_next = if inline_first {
+            let depth_next = if inline_first || after_dash {
                 base + 1
             } else if was_inline_value {
                 if self.compact_list_indent && self.current_map_depth.is_some() {
